@@ -46,6 +46,16 @@ RULES = {
     "addon_ignore_sni": {},
 }
 ADDON_IGNORE = "addon_ignore_sni"
+# rules anchored on the host:port form (the documented thing patterns are matched against); used with Host values that
+# are names / IPv4 / bracketed IPv6 literals, each with and without an explicit port
+HOSTPORT_RULES = {
+    "ign_v6_port": {"ignore_hosts": [r"^\[2001:db8::1\]:80$"]},
+    "allow_v6_port": {"allow_hosts": [r"^\[2001:db8::1\]:80$"]},
+    "ign_v4_port": {"ignore_hosts": [r"^192\.0\.2\.9:80$"]},
+    "ign_name_port": {"ignore_hosts": [r"example\.com:80$"]},
+    "allow_literal_port": {"allow_hosts": [r"^(\[2001:db8::1\]|192\.0\.2\.9):80$"]},
+}
+RULES.update(HOSTPORT_RULES)
 
 
 def make_policy(case):
@@ -68,8 +78,11 @@ M2, S1, S2, BANNER = b"<client-more>", b"<server-one>", b"<server-two>", b"220 m
 OPAQUE = b"\x00\x01\x02 opaque protocol bytes\xff"
 
 
+V6_LITERAL, V4_LITERAL = "[2001:db8::1]", "192.0.2.9"  # Host header values that are address literals
+
+
 def host_of(kind):
-    return {"match": MATCH, "other": OTHER, "ip": IP, "none": None}[kind]
+    return {"match": MATCH, "other": OTHER, "ip": IP, "none": None, "v6": V6_LITERAL, "v4": V4_LITERAL}[kind]
 
 
 def http_flight(name, syntax):
@@ -196,7 +209,15 @@ def base_cases(thorough):
                 out.append(dict(b, flight="opaque", name="none", syntax="-"))
                 if strategy == "eager":
                     out.append(dict(b, flight="server_first", name="none", syntax="-"))
-    return [c for c in out if c["rules"] != ADDON_IGNORE or c["flight"] == "tls"]
+    out = [c for c in out if c["rules"] not in HOSTPORT_RULES and (c["rules"] != ADDON_IGNORE or c["flight"] == "tls")]
+    # Host header forms x rules anchored on host:port
+    for stack, addr in STACKS:
+        for rules in list(HOSTPORT_RULES) + ["ign_name", "allow_name"]:
+            for strategy in ("eager", "lazy"):
+                for name in ("v6", "v4", "match"):
+                    for syn in ("default", "explicit_port", "second_position", "upper_name", "tab_trailing_space"):
+                        out.append({"stack": stack, "addr": addr, "rules": rules, "strategy": strategy, "flight": "http", "name": name, "syntax": syn})
+    return out
 
 
 def zone_positions(case, flight):
